@@ -116,3 +116,26 @@ Proof.
       apply (IH a0); [apply (apply_op_wf ins o a (VArr a0) Hins Hw Hc1 E) | exact Hc2 | exact H].
 Qed.
 
+
+(* the operations whose coverage does not depend on the state: everything except the in-place rename of one axis (a sibling's name
+   is accepted, open finding), and unflatten / grouped reshape (which ask for consistent grouped axes); new names must be non-empty *)
+Definition static_op (o : op) : bool :=
+  match o with
+  | ORenameAxis _ _ | OUnflatten | OReshape _ => false
+  | OStack nm _ _ _ _ => match nm with Some n => negb (String.eqb n "") | None => true end
+  | OBroadcast axs => negb (existsb (String.eqb "") (map aname axs))
+  | ONewaxis n _ _ => negb (String.eqb n "")
+  | _ => true
+  end.
+Lemma static_covered a o : static_op o = true -> covered a o = true.
+Proof. destruct o; simpl; intros H; try reflexivity; try exact H; discriminate. Qed.
+Lemma static_prog_covered ins ops : forall a, forallb static_op ops = true -> prog_covered ins ops a = true.
+Proof.
+  induction ops as [|o t IH]; intros a H; simpl in *; [reflexivity|].
+  apply andb_true_iff in H. destruct H as [H1 H2]. rewrite (static_covered a o H1). simpl.
+  destruct (apply_op ins o a) as [w|]; [|reflexivity]. destruct w; try reflexivity. apply IH. exact H2.
+Qed.
+(* any program over those operations, whatever the arguments: every intermediate and the final result are well-formed *)
+Theorem run_ops_wf_static ins ops a v :
+  Forall WF ins -> WF a -> forallb static_op ops = true -> run_ops ins ops a = Ok v -> WFv v.
+Proof. intros Hins Hw Hs H. eapply run_ops_wf; [exact Hins | exact Hw | apply static_prog_covered; exact Hs | exact H]. Qed.
